@@ -365,6 +365,19 @@ def process(run, cases, corr_every=1, full=True):
         if corr_lines:
             i, (op, req, exp) = corr_lines[len(corr_lines) // 2]
             run.sample({'request': req[:400], 'implementation': exp[:300], 'model': answers[len(corr_lines) // 2][:300]})
+        # the two origin-propagation primitives (Base.visit inheritance, copy_origin) on random node trees
+        if full:
+            import c12_origin
+            prim = c12_origin.requests(random.Random(run.seed * 7919 + 5), 400 if run.tier == 'quick' else 3000)
+            got = run.drive([r for _, r, _ in prim])
+            pdis = {}
+            for (op, req, exp), ans in zip(prim, got):
+                run.evaluations += 1
+                if ans != exp:
+                    pdis.setdefault(op, []).append({'request': req[:500], 'implementation': exp[:300], 'model': ans[:300]})
+            for op in ('inherit', 'copyorigin'):
+                run.oblige('correspondence:c12.' + op, 'correspondence', not pdis.get(op), json.dumps(pdis.get(op, [])[:2]))
+            run.cov['origin_primitive_requests'] = len(prim)
         # exhaustive table of create_exception over a class zoo
         zoo = exception_zoo() if full else []
         from malt.impl import api
